@@ -14,8 +14,8 @@
                     only B/Z/X vertices occur and there are at most DENMAX spiders
      DocWF          the document is well formed (names unique, every edge endpoint declared, virtual
                     hadamard nodes have exactly two edges, input / output indices are 0..n-1)
-     DocMeansPre    the SPECIFICATION's decoding of the logged document is anchored-isomorphic to g:
-                    the text means the right thing to another reader
+     DocMeansPre    the document joins no pair of vertices twice and the SPECIFICATION's decoding of it
+                    is anchored-isomorphic to g: the text means the right thing to another reader
      ScalarExact    g's scalar is sqrt2^p e^{i k pi/4} (Ring!ExactPhasePow): the decoded scalar is the
                     same element of Z[omega][1/2] ("preserved exactly" = the same number: the four dyadic
                     coefficients are equal; the provenance flag `approx` that decoding sets by multiplying
@@ -93,7 +93,7 @@ Step(e) ==
                denOK == ~dpre.ok \/ (Denotable(e.post) /\ Den(Unit(FromAbs(e.post))) = dpre.t)
                wf == DocWF(doc)
                dec == DecodeWith(doc, PhOfRaw)
-               means == wf /\ ~dec.panic /\ ~dec.unsupported /\ IsoAnchoredC(dec.g, dec.cg, prer, crd)
+               means == wf /\ DocSimple(doc) /\ ~dec.panic /\ ~dec.unsupported /\ IsoAnchoredC(dec.g, dec.cg, prer, crd)
                exact == ExactPhasePow(prer.sc)[1]
                \* the decoded scalar (post) and the scalar fields as another reader understands them (doc)
                scPost == IF exact THEN e.scalar_exact_kept /\ ~e.sc_big /\ ScFromAbs(e.post.sc) = prer.sc ELSE e.scalar_close
